@@ -226,6 +226,8 @@ pub struct ChunkBounds {
     pub interesting_max: usize,
     /// number of interesting groups (windows of adjacent candidate positions) enumerated
     pub max_groups: usize,
+    /// uniform chunk sizes 1..=min(n, uniform_max)
+    pub uniform_max: usize,
     /// enumerate flush policies (End/Every on everything, After(i) on uniform sizes 1..=3)
     pub flush_policies: bool,
     /// insert empty chunks (doubled cut) at every position of the single-cut and byte-at-a-time chunkings
@@ -273,7 +275,7 @@ impl ChunkSpace {
                 triples = true;
                 segs.push(("cut-triples", choose3(m)));
             }
-            segs.push(("uniform-size", n as u64)); // sizes 1..=n
+            segs.push(("uniform-size", n.min(b.uniform_max) as u64)); // sizes 1..=min(n, uniform_max)
             for g in &interesting {
                 segs.push(("interesting-subsets", 1u64 << g.len()));
             }
@@ -469,7 +471,7 @@ mod tests {
     use super::*;
     #[test]
     fn chunk_space_is_a_bijection_onto_distinct_chunkings() {
-        let b = ChunkBounds { full_n: 6, pair_n: 12, triple_n: 10, interesting_max: 4, max_groups: 2, flush_policies: true, empty_chunks: true };
+        let b = ChunkBounds { full_n: 6, pair_n: 12, triple_n: 10, interesting_max: 4, max_groups: 2, uniform_max: usize::MAX, flush_policies: true, empty_chunks: true };
         for n in [1usize, 2, 5, 6, 7, 9, 12, 13] {
             let sp = ChunkSpace::new(n, &[2, 3, 5, 8], &b);
             let mut seen = std::collections::HashSet::new();
